@@ -15,7 +15,7 @@ EXTENDS Naturals, Sequences, FiniteSets, TLC
 CONSTANTS
     R,          \* number of rules in a rule set
     RetSet,     \* what a rule body does when invoked (subset of Rets)
-    DepSet,     \* subset of {"met", "missing", "missing-group", "missing-both"}
+    DepSet,     \* subset of {"met", "missing", "missing-group", "missing-both", "ignored", "ignored-missing"}
     EnSet,      \* subset of BOOLEAN
     NKeys,      \* keys are drawn from 1..NKeys (rules may share a key)
     NMods       \* modules 1..NMods (rules may share a module)
@@ -80,6 +80,8 @@ Start ==
 (* The outcome the statement prescribes for one rule. *)
 Outcome(rule) ==
     IF ~rule.enabled THEN "nothing"
+    \* told to ignore a marker that is present: a deliberate skip, whatever else is missing -> nothing
+    ELSE IF rule.dep \in {"ignored", "ignored-missing"} THEN "nothing"
     ELSE IF rule.dep # "met" THEN "skip"
     ELSE Class(rule.ret)
 
@@ -151,7 +153,7 @@ StubOnOverflow ==
     \A h \in Headings : \A i \in DOMAIN buckets[h] :
         buckets[h][i].stub <=> rules[buckets[h][i].r].ret \in {"over_fail", "over_pass", "over_info", "over_fingerprint"}
 SkipNamesMissing ==
-    Evaluated => \A r \in DOMAIN rules : InSkips(r) = 1 <=> (rules[r].enabled /\ rules[r].dep # "met")
+    Evaluated => \A r \in DOMAIN rules : InSkips(r) = 1 <=> Outcome(rules[r]) = "skip"
 ShownSubset ==
     phase = "done" => shown.vis \subseteq Headings \cup {"skips", "metadata"}
 
